@@ -387,3 +387,95 @@ func VH_C12_sessions_equal_sanse_specification() { c12Session(2) }
 //verif:cover session compared
 //verif:timeout 3000
 func VH_C12_sessions_equal_sanse_specification_3msgs() { c12Session(3) }
+
+// The streaming interface (Kra in parts, Vatte in parts, FlagInit to start
+// over) gives the outputs of the one-shot specification on the concatenated
+// input; FlagInit discards whatever an unfinished earlier input left behind.
+//
+//verif:prop C12
+//verif:replay none
+//verif:solver cvc5
+//verif:bounds key 16 symbolic bytes; optional unfinished earlier input of {1,13,200,213} bytes discarded by FlagInit; input fed as two parts of {0,8,200,208} + {0,1,200} bytes; output squeezed as {1,32,200} + {0,8,200} bytes; all bytes symbolic; permutation uninterpreted and shared with the reference
+//verif:cover compared;restarted
+//verif:timeout 900
+func VH_C12_streaming_kra_vatte_equal_one_shot_specification() {
+	key := verifBytes("key", 16)
+	var kv Kravatte
+	verifAssert(kv.RefMaskInitialize(key) == 0, "C12: mask initialisation succeeds")
+	k := kv.k
+	first := FlagNone
+	if verifBool("unfinished-earlier-input") {
+		junk := verifBytes("earlier-input", verifPick("earlier-len", 1, 13, 200, 213))
+		verifAssert(kv.Kra(junk, 8*len(junk), FlagNone) == 0, "C12: Kra accepts a non-final byte-aligned part")
+		first = FlagInit
+		verifCover("restarted")
+	}
+	p1 := verifBytes("part1", verifPick("part1-len", 0, 8, 200, 208))
+	p2 := verifBytes("part2", verifPick("part2-len", 0, 1, 200))
+	verifAssert(kv.Kra(p1, 8*len(p1), first) == 0, "C12: Kra accepts the first part")
+	verifAssert(kv.Kra(p2, 8*len(p2), FlagLastPart) == 0, "C12: Kra accepts the last part")
+	o1 := make([]byte, verifPick("out1-len", 1, 32, 200))
+	o2 := make([]byte, verifPick("out2-len", 0, 8, 200))
+	if len(o2) > 0 {
+		verifAssume(len(o1)%200 == 0) // XKCP: a non-final Vatte part is a whole number of blocks
+		verifAssert(kv.Vatte(o1, 8*len(o1), FlagNone) == 0, "C12: Vatte produces the first part")
+		verifAssert(kv.Vatte(o2, 8*len(o2), FlagLastPart) == 0, "C12: Vatte produces the last part")
+	} else {
+		verifAssert(kv.Vatte(o1, 8*len(o1), FlagLastPart) == 0, "C12: Vatte produces the output")
+	}
+	want := c12RefKravatte(k, append(append([]byte(nil), p1...), p2...), len(o1)+len(o2))
+	verifAssert(c12EqAll(append(append([]byte(nil), o1...), o2...), want), "C12: streaming Kra/Vatte output equals the specification on the concatenated input (FlagInit starts from nothing)")
+	verifCover("compared")
+}
+
+// The transport's use of the AEAD (C03 / C15 rest on it): a fresh instance per
+// packet, the 16-byte header as associated data. Sealing equals the SANSE
+// specification - so the tag covers EVERY header byte, counter and session id
+// included - and a packet opens only if its tag is the specification's tag for
+// the plaintext returned, the empty payload included.
+func c12Transport(prop string) {
+	key := verifBytes("key", 16)
+	ad := verifBytes("header", 16)
+	pl := verifPick("payload-len", 0, 1, 200)
+	a, _ := NewSANSE(key)
+	k := a.(*sanse).kravatte.k
+	if verifBool("seal") {
+		pt := verifBytes("payload", pl)
+		got := a.Seal(nil, nil, pt, ad)
+		ref := &c12RefSANSE{k: k}
+		wantCT, wantTag := ref.wrap(ad, pt)
+		verifAssert(len(got) == pl+TagSize, prop+": ciphertext is payload length plus the tag")
+		if len(got) == pl+TagSize {
+			verifAssert(c12EqAll(got[:pl], wantCT), prop+": packet body equals the SANSE specification")
+			verifAssert(c12EqAll(got[pl:], wantTag), prop+": packet tag equals the SANSE specification over the WHOLE 16-byte header (type, session id, counter) and the payload")
+		}
+		verifCover("sealed")
+		return
+	}
+	ct := verifBytes("body-and-tag", pl+TagSize)
+	pt, err := a.Open(nil, nil, ct, ad)
+	if err != nil {
+		verifCover("refused")
+		return
+	}
+	verifCover("opened")
+	ref := &c12RefSANSE{k: k}
+	_, wantTag := ref.wrap(ad, pt)
+	verifAssert(c12EqAll(ct[pl:], wantTag), prop+": a packet authenticates only if all 32 tag bytes are the specification's tag for this header and the returned payload (an empty payload is no exception)")
+}
+
+//verif:prop C15
+//verif:replay none
+//verif:solver cvc5
+//verif:bounds key 16 symbolic bytes, header (associated data) 16 symbolic bytes, payload length in {0,1,200}; Seal compared with the SANSE reference, Open on arbitrary body+tag bytes; permutation uninterpreted and shared with the reference
+//verif:cover sealed;opened;refused
+//verif:timeout 600
+func VH_C15_packet_authentication_covers_the_whole_header_and_every_payload() { c12Transport("C15") }
+
+//verif:prop C03
+//verif:replay none
+//verif:solver cvc5
+//verif:bounds as VH_C15_packet_authentication_covers_the_whole_header_and_every_payload
+//verif:cover sealed;opened;refused
+//verif:timeout 600
+func VH_C03_packet_authentication_covers_the_whole_header_and_every_payload() { c12Transport("C03") }
